@@ -421,8 +421,98 @@ func c12r16(c *Ctx, r *Report) {
 	r.floor("BASH_FUNC_ entries pasted by runProxy", n, 1)
 }
 
+// c06r18: with --tmux (and --height on Windows) the records of the library's Options.Input channel are relayed to
+// the real fzf through a fifo. The real fzf splits what it reads at the INPUT delimiter (--read0), so the relay
+// terminates each record with that delimiter — not with the OUTPUT separator --print0 sets (D117: it appended
+// Options.PrintSep: with only one of --read0 / --print0 all records reached the real fzf glued into one item).
+func c06r18(c *Ctx, r *Report) {
+	l := c.L
+	r.rule("C06-R18", "E (the relay writes the delimiter the reader reads)", "P1",
+		"in runProxy and its closures, the string appended to an item of Options.Input before it is written to the input fifo does not derive from Options.PrintSep and depends on Options.ReadZero",
+		"with --tmux and input given through the library's Input channel, --read0 without --print0 (or the reverse) turns all records into one item")
+	fn := l.Fn("fzf", "runProxy")
+	fPS := l.Field("fzf", "Options", "PrintSep")
+	fRZ := l.Field("fzf", "Options", "ReadZero")
+	fIn := l.Field("fzf", "Options", "Input")
+	if fn == nil || fPS == nil || fRZ == nil || fIn == nil {
+		r.unest("anchors", token.NoPos, nil, "anchors runProxy / Options.PrintSep / ReadZero / Input", "cannot resolve")
+		return
+	}
+	n := 0
+	for _, g := range withClosures(fn) {
+		eachInstr(g, func(in ssa.Instruction) {
+			// item + separator, item received from the Input channel
+			bo, ok := in.(*ssa.BinOp)
+			if !ok || bo.Op != token.ADD {
+				return
+			}
+			if bt, ok := bo.Type().Underlying().(*types.Basic); !ok || bt.Info()&types.IsString == 0 {
+				return
+			}
+			fromChan := false
+			for v := range backwardSlice(bo.X, nil, nil) {
+				switch x := v.(type) {
+				case *ssa.UnOp:
+					if x.Op == token.ARROW {
+						fromChan = true
+					}
+				case *ssa.Next:
+					fromChan = true
+				case *ssa.Range:
+					fromChan = true
+				}
+			}
+			if !fromChan {
+				return
+			}
+			n++
+			usesPS, usesRZ := false, false
+			for v := range backwardSlice(bo.Y, nil, nil) {
+				if f, _ := loadedField(v); f == fPS {
+					usesPS = true
+				}
+				if f, _ := loadedField(v); f == fRZ {
+					usesRZ = true
+				}
+			}
+			// the separator may be chosen by a branch on ReadZero
+			for cond := range (cdCache{}).of(bo) {
+				for v := range backwardSlice(cond, nil, nil) {
+					if f, _ := loadedField(v); f == fRZ {
+						usesRZ = true
+					}
+				}
+			}
+			if phi, ok := bo.Y.(*ssa.Phi); ok {
+				for _, p := range phi.Block().Preds {
+					if iff, ok := p.Instrs[len(p.Instrs)-1].(*ssa.If); ok {
+						if f, _ := loadedField(iff.Cond); f == fRZ {
+							usesRZ = true
+						}
+					}
+				}
+				// the branch that selects the phi may be one block further up
+				for _, p := range phi.Block().Preds {
+					for _, pp := range p.Preds {
+						if iff, ok := pp.Instrs[len(pp.Instrs)-1].(*ssa.If); ok {
+							if f, _ := loadedField(iff.Cond); f == fRZ {
+								usesRZ = true
+							}
+						}
+					}
+				}
+			}
+			r.check(!usesPS && usesRZ, fmt.Sprintf("%s:record terminator #%d of the input relay", relName(fn), n), bo.Pos(), g,
+				"chosen by Options.ReadZero", "the relayed records are terminated with "+describe(bo.Y)+": not the delimiter the real fzf splits its input at")
+		})
+	}
+	r.floor("record terminators written by the input relay", n, 1)
+}
+
 func round12(c *Ctx, r *Report, prop string) {
 	switch prop {
+	case "C06":
+		c06r18(c, r)
 	case "C07":
 		c07r15(c, r)
 		c11r26(c, r) // the text that is printed is stripped iff --ansi, with or without colours
